@@ -500,6 +500,7 @@ class C14(Check):
                 ctx.disagree('hypotheses of init_contents on the built-in tables', {'op': 'initcheck'}, 'Profiles() works', rep)
         self.correspond(ctx, impl, seqs)
         self.expand_correspond(ctx, impl, rng)
+        self.spec_correspond(ctx, impl, seqs)
         self.termination_correspond(ctx, impl, ctx.sub_rng('c14-term'))
         self.oracle_builtin_macros(ctx, impl)
         self.oracle(ctx, impl, seqs, rng)
@@ -876,6 +877,32 @@ class C14(Check):
                 r = ' '.join(rep.split(' ')[:2])
                 if r != got:
                     ctx.disagree('_expand_macros', {'macros': m, 'value': v}, got, rep)
+
+    # -- the registry as a function of the contents (`specReg`, C14.answers_from_contents) ---------------
+    def spec_correspond(self, ctx, impl, seqs):
+        """after a history: what the implementation shows against the model's `specReg` evaluated on the contents
+        that the tracker derived from the documented meaning of the operations (independent of both)"""
+        if not ctx.model_ok:
+            return
+        cases, lines = [], []
+        for ops in seqs[:ctx.n(60, 500)]:
+            p, tr = self.run_history(impl, ops)
+            cases.append((ops, impl.observe(p)))
+            lines.append(('spec %s ' % enc_names(tr.default)) + ' '.join(
+                '%s %s %s' % (enc(n), enc_props(ps), enc_macros(ms) if ms else 'E') for n, ps, ms in tr.contents))
+        for (ops, obs), rep in zip(cases, ctx.driver([ln.rstrip() for ln in lines])):
+            ctx.case(key=('spec', repr(ops)), nontrivial=True, kind='spec')
+            if rep == 'bad-op':
+                ctx.disagree('specReg request', {'history': ops}, 'observables', rep)
+                continue
+            md = parse_dump(rep)
+            for key in ('names', 'known', 'eff', 'bp', 'pats'):
+                if md[key] != obs[key]:
+                    ctx.disagree('registry computed from the contents: observable %s' % key,
+                                 {'history': ops, 'start': 'Profiles()'},
+                                 obs[key] if key != 'pats' else [x for x in obs[key] if x not in md[key]][:5],
+                                 md[key] if key != 'pats' else [x for x in md[key] if x not in obs[key]][:5])
+                    break
 
     # -- termination of the expansion (T14.6) ---------------------------------------------------------
     TERM_NAMES = ['a', 'b', 'c1', 'd-e', 'f', 'g', 'h2', 'i-']
